@@ -26,6 +26,7 @@ props! {
     c03 => "C03",
     c05 => "C05",
     c13 => "C13",
+    c17 => "C17",
     #[cfg(feature = "full")] c02 => "C02",
     #[cfg(feature = "full")] c06 => "C06",
     #[cfg(feature = "full")] c07 => "C07",
